@@ -17,11 +17,28 @@ Fixpoint sexp_eqb (a b : sexp) : bool :=
   | _, _ => false
   end.
 
+(* tail-recursive hex printing (strings of 10^5 bytes); = Sexp.print_hexs, see print_hexs_tr_spec *)
+Fixpoint print_hex_acc (l : list N) (acc : list N) : list N :=
+  match l with
+  | [] => rev_append acc []
+  | b :: r => print_hex_acc r (hex_digit (b mod 16) :: hex_digit (b / 16) :: acc)
+  end.
+Definition print_hexs_tr (l : list N) : list N := match l with [] => [45] | _ => print_hex_acc l [] end.
+
+Lemma print_hex_acc_spec : forall l acc, print_hex_acc l acc = rev acc ++ print_hex l.
+Proof.
+  induction l as [|b r IH]; intros acc; cbn [print_hex_acc print_hex].
+  - now rewrite <- rev_alt, app_nil_r.
+  - rewrite IH. cbn [rev]. now rewrite <- !app_assoc.
+Qed.
+Lemma print_hexs_tr_spec : forall l, print_hexs_tr l = print_hexs l.
+Proof. intros [|b r]; [reflexivity|]. unfold print_hexs_tr, print_hexs. now rewrite print_hex_acc_spec. Qed.
+
 Definition enc_scalar (s : scalar) : sexp :=
   match s with
   | SNull => A "null" | STrue => A "true" | SFalse => A "false"
-  | SNum l => SList [A "l"; Atom (print_hexs l)]
-  | SStr s => SList [A "s"; Atom (print_hexs s)]
+  | SNum l => SList [A "l"; Atom (print_hexs_tr l)]
+  | SStr s => SList [A "s"; Atom (print_hexs_tr s)]
   end.
 
 Definition dec_scalar (e : sexp) : option scalar :=
